@@ -46,7 +46,7 @@ class FuncInfo:
     @property
     def qualname(self) -> str:
         if self.cls is not None:
-            return f"{self.module.name}:{self.cls.name}.{self.name}"
+            return f"{self.module.name}:{self.cls.name}.{self.name}" + (".setter" if self.kind == "setter" else "")
         return f"{self.module.name}:{self.name}"
 
     @property
